@@ -35,6 +35,14 @@ def warm(tier):
     posterior_as_array(np.array([[0, 1]]), np.array([1.0]), 3)
 
 
+
+def setup_extra():
+    from .. import cliflow
+
+    for prog, h in (("call", "hand"), ("call-exact", "asm"), ("call-pedigree", "hand"), ("assemble", "0.2")):
+        cliflow.gfield_flow(Result(), {}, prog, h)
+
+
 def plan(tier, seed):
     maxP, maxH, maxN = (14, 160, 3 * 10 ** 4) if tier == "quick" else (16, 300, 2 * 10 ** 6)
     jobs = []
